@@ -287,11 +287,18 @@ pub fn gradient_src(ctx: &Ctx, ext: f32) -> BoxedStrategy<SrcSpec> {
     .boxed()
 }
 
+/// a linear gradient whose start and end point coincide exactly (constant colour: the first stop); outside
+/// C12's domain (extent >= 1 px) but a legal source everywhere else
+pub fn degenerate_gradient_src(ctx: &Ctx, ext: f32) -> BoxedStrategy<SrcSpec> {
+    (stops(ctx), 0u8..3, -4.0f32..ext + 4.0, -4.0f32..ext + 4.0).prop_map(|(stops, spread, x, y)| SrcSpec::Linear { stops, spread, x0: x, y0: y, x1: x, y1: y }).boxed()
+}
+
 pub fn any_src(ctx: &Ctx, ext: f32) -> BoxedStrategy<SrcSpec> {
     prop_oneof![
-        5 => solid_src(),
-        3 => image_src(5),
-        3 => gradient_src(ctx, ext),
+        10 => solid_src(),
+        6 => image_src(5),
+        6 => gradient_src(ctx, ext),
+        1 => degenerate_gradient_src(ctx, ext),
     ]
     .boxed()
 }
